@@ -33,7 +33,14 @@ impl LintPass for OverlappingFunctionCheck {
                     .collect::<Vec<_>>();
                 // The labels and functions come from hash sets: report on the
                 // first label in the source, list the functions in program order
-                labels.sort_by_key(|l| l.token.range());
+                // (labels of one entry can come from two files and then have equal
+                // ranges: the name breaks the tie)
+                labels.sort_by(|a, b| {
+                    a.token
+                        .range()
+                        .cmp(&b.token.range())
+                        .then_with(|| a.name.cmp(&b.name))
+                });
                 let label = labels.first();
                 let mut functions = node.functions().clone().into_iter().collect::<Vec<_>>();
                 functions.sort_by_key(|f| f.entry().order());
